@@ -21,8 +21,13 @@ def corr_products(seed, tier):
     return corr_product.check(seed, tier)
 
 
+def corr_to_dataset(seed, tier):
+    import corr_toxarray
+    return corr_toxarray.check(seed, tier)
+
+
 def checks(tier):
-    return [corr_decoders, corr_products, corr_summary, oracle_c13]
+    return [corr_decoders, corr_products, corr_summary, corr_to_dataset, oracle_c13]
 
 
 def replay(payload):
